@@ -45,6 +45,8 @@ pub struct Lie {
     pub kind: String,
 }
 
+pub const BUDGET_EXHAUSTED: &str = "request_budget_exhausted";
+
 #[derive(Clone, Debug)]
 pub struct Served {
     pub requested: String,
@@ -117,6 +119,10 @@ impl Provider {
         self.state.lock().unwrap().rules.clear();
     }
 
+    fn request_budget(&self) -> usize {
+        4 * self.view.json.len() + 64
+    }
+
     fn matches(&self, lie: &Lie, hash: &str, occ: u32) -> bool {
         let on = match &lie.on {
             LieOn::Any => true,
@@ -128,6 +134,18 @@ impl Provider {
     /// One request. `Ok(Some(json))`, `Ok(None)` = not found, `Err` = transport error.
     fn answer(&self, hash: &str) -> Result<Option<String>, ()> {
         let mut st = self.state.lock().unwrap();
+        // Circuit breaker: a verifier that keeps asking (the client's cache-enabled loop can be
+        // sent round in circles, see REPORT.md) is cut off with transport errors so that the call
+        // ends. Non-termination is not an acceptance, hence not a C03 verdict; it is counted.
+        if st.log.len() >= self.request_budget() {
+            st.log.push(Served {
+                requested: hash.to_string(),
+                lie_kind: Some(BUDGET_EXHAUSTED.to_string()),
+                id: None,
+                transport_error: true,
+            });
+            return Err(());
+        }
         let occ = {
             let c = st.occ.entry(hash.to_string()).or_insert(0);
             let v = *c;
@@ -169,6 +187,9 @@ impl Provider {
         };
         if id.is_some() {
             st.last_served = id;
+        }
+        if std::env::var_os("VERIF_TRACE").is_some() {
+            eprintln!("trace request {} occ {} -> {:?} lie {:?}", &hash[..hash.len().min(10)], occ, id, lie_kind);
         }
         st.log.push(Served { requested: hash.to_string(), lie_kind, id, transport_error });
         if transport_error {
@@ -279,9 +300,6 @@ impl RecordingCache {
         self.log.lock().unwrap().from_rejected_calls.clear();
     }
 
-    pub async fn len(&self) -> usize {
-        self.inner.len().await
-    }
 }
 
 #[async_trait]
